@@ -347,6 +347,12 @@ def run_c08(chk, prog):
                      "controller count, buffer == page in flight, stored pages == pages sent). From every sign state reachable under arbitrary traffic, configure must end Ok in ConfigReceived "
                      "with no pages, the requested type and clean counters; send_pages must then end Ok in PageLoaded/ShowingPages with the matching return value and the stored pages in sync; "
                      "show/load-next must move a manual sign and leave an automatic one. Bit-exactness of the data plane follows by composition (C09.O2, C13.O2, C07.O3; lemma L4) and is not re-derived.")
+    # data plane, by composition (lemma L4): the three component rule sets are part of this property's verdict
+    import p_ctrl, p_vsign, p_page
+    n = chk.include("C08.data", p_ctrl.run_c09, prog, keep=lambda r: r.startswith("C09.O2") or r.startswith("C09.O4") or r.startswith("C09.O3"))
+    n += chk.include("C08.data", lambda c, p: [p_vsign.reassembly_rules(c, p_vsign.SignTable(p, log_on=lo), "C13.O2") for lo in (False, True)], prog)
+    n += chk.include("C08.data", p_page.run_c07, prog, keep=lambda r: r.startswith("C07.O3") or r.startswith("C07.O1"))
+    chk.floor("C08.data", "data-plane obligations (chunking C09.O2-O4, reassembly C13.O2, page length C07.O1/O3)", n, 40)
     sm = SignModel(prog)
     prod = Product(prog, sm)
     where_s = loc(sm.tab.fn["span"])
